@@ -93,6 +93,22 @@ pub fn mont_small(m: u8) -> Fq {
     Fq::from_slice(&w).unwrap() * r.inverse().unwrap()
 }
 
+/// A Jacobian representative (X, Y, Z) of a point of E(Fq) built so that its NORMALISATION performs a chosen multiplication:
+/// to_affine computes X * zinv^2; with (a, b) a TLC-generated operand pair (quotient-pattern / V-boundary family) and b a square,
+/// zinv = sqrt(b), X = a, the affine x is a*b.  Returns None when b is not a square or a*b carries no point.
+pub fn crafted_g1(pair: &(Vec<u8>, Vec<u8>)) -> Option<G1> {
+    let (a, bq) = (Fq::from_slice(&pair.0)?, Fq::from_slice(&pair.1)?);
+    let zinv = bq.sqrt()?;
+    if zinv.is_zero() {
+        return None;
+    }
+    let x = a * bq;
+    let y = (x * x * x + G1::b()).sqrt()?;
+    let z = zinv.inverse()?;
+    let z3 = z * z * z;
+    Some(G1::new(a, y * z3, z))
+}
+
 pub const TAGS: [&str; 5] = ["A", "J", "S", "Z0", "ZN"];
 
 pub fn g1_rep<R: Rng>(rng: &mut R, p: G1, tag: &str) -> G1 {
